@@ -68,6 +68,10 @@ pub struct Case {
     /// root handler of a signer built by `HandlerBuilder` (takes precedence over `level_b`)
     #[serde(default)]
     pub wire: bool,
+    /// two outbound channels: both are funded by ONE transaction (batch open), checked and signed
+    /// once
+    #[serde(default)]
+    pub batch: bool,
 }
 
 /// How the blocks reach the monitors.
@@ -142,11 +146,24 @@ impl Sys {
             w.node.add_keysend(payee, phash(h), 2_000_000_000).map_err(|e| format!("keysend: {:?}", e))?;
         }
         let mut chans = vec![];
+        let batch = case.batch && case.chans.len() >= 2 && case.chans.iter().all(|c| c.outbound);
+        let mut batched: Vec<crate::chainpool::Funded> = if batch {
+            let specs: Vec<ChanSpec> = case.chans.iter().enumerate().map(|(i, cc)| {
+                let mut spec = ChanSpec::basic(1 + i as u64);
+                spec.anchors = cc.anchors;
+                spec.outbound = cc.outbound;
+                spec
+            }).collect();
+            crate::chainpool::open_funded_batch(&mut w, &specs, &case.chans[0].fund)
+        } else {
+            vec![]
+        };
+        batched.reverse();
         for (i, cc) in case.chans.iter().enumerate() {
             let mut spec = ChanSpec::basic(1 + i as u64);
             spec.anchors = cc.anchors;
             spec.outbound = cc.outbound;
-            let f = open_funded(&mut w, &spec, &cc.fund);
+            let f = if batch { batched.pop().expect("batch-funded channel") } else { open_funded(&mut w, &spec, &cc.fund) };
             let mut contents = vec![f.content0.clone()];
             for (k, hs) in cc.rounds.iter().enumerate() {
                 let offered: Vec<Htlc> = hs.iter().filter(|h| h.offered).map(mk_htlc).collect();
@@ -527,13 +544,14 @@ impl Prop for C14 {
                 .prop_map(|(depth, stream)| Step::Disconnect { depth, stream }),
             1 => Just(Step::Restart),
         ];
-        (prop::bool::weighted(0.34), proptest::collection::vec(chan, 1..3), prop::bool::weighted(0.6), proptest::collection::vec(step, 4..max_steps), prop::bool::weighted(0.3))
-            .prop_map(|(level_b, chans, prefund, mut steps, wire)| {
+        (prop::bool::weighted(0.34), proptest::collection::vec(chan, 1..3), prop::bool::weighted(0.6), proptest::collection::vec(step, 4..max_steps), prop::bool::weighted(0.3), prop::bool::weighted(0.5))
+            .prop_map(|(level_b, chans, prefund, mut steps, wire, batch)| {
                 if prefund {
                     // most histories start with the funding transactions confirmed
                     steps.insert(0, Step::Connect { txs: vec![TxSel::Funding { c: 0 }, TxSel::Funding { c: 1 }], stream: false, chunk: 0, probe: false });
                 }
-                Case { level_b, chans, steps, wire }
+                let batch = batch && chans.len() >= 2 && chans.iter().all(|c| c.outbound);
+                Case { level_b, chans, steps, wire, batch }
             })
             .boxed()
     }
@@ -552,9 +570,10 @@ impl Prop for C14 {
         let mut v = vec![];
         for (level_b, wire) in [(false, false), (true, false), (true, true)] {
             // close and sweep in one block
-            v.push(Case { level_b, wire, chans: vec![chan(vec![])], steps: vec![connect(vec![TxSel::Funding { c: 0 }]), connect(vec![TxSel::HolderCommit { c: 0 }, TxSel::SweepOurs { c: 0, salt: 0 }]), dis.clone()] });
+            v.push(Case { batch: false, level_b, wire, chans: vec![chan(vec![])], steps: vec![connect(vec![TxSel::Funding { c: 0 }]), connect(vec![TxSel::HolderCommit { c: 0 }, TxSel::SweepOurs { c: 0, salt: 0 }]), dis.clone()] });
             // HTLC spend and second-level spend in one block
             v.push(Case {
+                batch: false,
                 level_b,
                 wire,
                 chans: vec![chan(vec![vec![h.clone()]])],
@@ -562,6 +581,7 @@ impl Prop for C14 {
             });
             // close and first-level HTLC spend in one block
             v.push(Case {
+                batch: false,
                 level_b,
                 wire,
                 chans: vec![chan(vec![vec![h.clone()]])],
@@ -569,6 +589,7 @@ impl Prop for C14 {
             });
             // a first-level HTLC spend connected and disconnected (probe)
             v.push(Case {
+                batch: false,
                 level_b,
                 wire,
                 chans: vec![chan(vec![vec![h.clone()]])],
@@ -576,15 +597,17 @@ impl Prop for C14 {
             });
             // a first-level HTLC spend reorged out
             v.push(Case {
+                batch: false,
                 level_b,
                 wire,
                 chans: vec![chan(vec![vec![h.clone()]])],
                 steps: vec![connect(vec![TxSel::Funding { c: 0 }]), connect(vec![TxSel::HolderCommit { c: 0 }]), connect(vec![hs(0)]), dis.clone()],
             });
             // the counterparty's revoked commitment (with an HTLC) confirms
-            v.push(Case { level_b, wire, chans: vec![chan(vec![vec![h.clone()], vec![]])], steps: vec![connect(vec![TxSel::Funding { c: 0 }]), connect(vec![TxSel::CpRevoked { c: 0 }])] });
+            v.push(Case { batch: false, level_b, wire, chans: vec![chan(vec![vec![h.clone()], vec![]])], steps: vec![connect(vec![TxSel::Funding { c: 0 }]), connect(vec![TxSel::CpRevoked { c: 0 }])] });
             // a streamed block is disconnected
             v.push(Case {
+                batch: false,
                 level_b,
                 wire,
                 chans: vec![chan(vec![])],
@@ -592,6 +615,7 @@ impl Prop for C14 {
             });
             // every transaction in its own block, unwound completely and replayed
             v.push(Case {
+                batch: false,
                 level_b,
                 wire,
                 chans: vec![chan(vec![vec![h.clone()]])],
@@ -624,6 +648,9 @@ impl Prop for C14 {
 
 impl C14 {
     fn run_inner(&self, case: &Case, st: &mut CaseStats, ctx: &Ctx) -> Result<(), Violation> {
+        if case.batch {
+            st.class("batch_funding_history");
+        }
         let mode = case.mode();
         let mut sys = match Sys::build(case) {
             Ok(s) => s,
